@@ -86,6 +86,9 @@ pub struct HandleState {
 /// Per-arena run-time bookkeeping that is not part of the heap graph.
 #[derive(Clone)]
 pub struct ArenaRt {
+    /// the client leaked a RefLock write guard in this arena: marking may never finish again (every
+    /// trace of that lock unwinds), so the settling suffix is skipped for it
+    pub leaked_guard: bool,
     /// no reachability-changing op since the call that took the arena out of Sleeping
     pub clean_since_wake: bool,
     /// a resurrection of a dead object happened and no MarkedArena was handed out since
@@ -159,6 +162,7 @@ impl Default for ArenaRt {
             dead_set: None,
             dead_set_base: BTreeSet::new(),
             faulted_cycle: false,
+            leaked_guard: false,
             debt_scale: 0.0,
             up_stored: BTreeSet::new(),
             adopted_cur: BTreeSet::new(),
@@ -330,7 +334,15 @@ pub fn guarded<T>(f: impl FnOnce() -> T) -> Caught<T> {
             } else if p.downcast_ref::<crate::tok::StopRun>().is_some() {
                 Caught::Stopped
             } else {
-                Caught::Unexpected(panic_message(&p))
+                let msg = panic_message(&p);
+                if crate::tok::is_leaked_guard_panic(&msg) {
+                    // the client leaked a RefLock write guard: tracing that lock unwinds with a
+                    // BorrowError, exactly like an injected trace fault (one that never goes away)
+                    crate::tok::note_fault_fired();
+                    Caught::Injected
+                } else {
+                    Caught::Unexpected(msg)
+                }
             }
         }
     }
